@@ -33,6 +33,7 @@ class EffectMachine(Machine):
         super().__init__(mod)
         self.hist: list = []
         self.allocs: list = []
+        self.cells: dict = {}  # contents of buffers written with memref.store: (site, absolute index) -> value
         self.probes: dict = {}
 
     def probe(self, name, n=1):
@@ -65,6 +66,20 @@ def _alloc(m: EffectMachine, op, vals, core):
     site = site.value.data if site is not None else id(op)
     vals[op.memref] = Ref(("alloc", site), [0] * len(sizes), sizes)
     m.allocs.append((site, tuple(sizes)))
+
+
+@handler(memref.LoadOp)
+def _load(m: EffectMachine, op, vals, core):
+    r: Ref = m.get(vals, op.memref)
+    idx = tuple(a + m.get(vals, i) for a, i in zip(r.offs, op.indices))
+    vals[op.res] = m.cells.get((r.site, idx), ("uninitialised", r.site, idx))
+
+
+@handler(memref.StoreOp)
+def _store(m: EffectMachine, op, vals, core):
+    r: Ref = m.get(vals, op.memref)
+    idx = tuple(a + m.get(vals, i) for a, i in zip(r.offs, op.indices))
+    m.cells[(r.site, idx)] = m.get(vals, op.value)
 
 
 @handler(memref.DeallocOp)
